@@ -185,3 +185,17 @@ def term_size(t):
     if t[0] == 'f':
         return 1 + sum(term_size(a) for a in t[2])
     return 1
+
+
+def pp(t):
+    """display form that never raises (for messages about API-built terms)"""
+    try:
+        return show_term(t)
+    except Unprintable:
+        pass
+    k = t[0]
+    if k == 'c':
+        return repr(t[1])
+    if k == 'f':
+        return "%s(%s)" % (show_name(t[1]), ','.join(pp(a) for a in t[2]))
+    return repr(t)
